@@ -593,12 +593,22 @@ def run(ctx):
     seen_fail = set()
     total = 0
     items = plan(ctx)
+    ndeep = 0
     if side is not None and not side['ok'] and ctx.quick():
         deep = deep_plan(ctx, side['breaks'])
-        ctx.notes.append('access discipline broken: searching %d more cases with two forced pre-emptions for a failing schedule' % len(deep))
-        items = items + deep
+        ctx.notes.append('access discipline broken: searching up to %d more cases with two forced pre-emptions for a failing schedule' % len(deep))
+        items = items + deep; ndeep = len(deep)
+    import time as _time
+    t_deep = None
     with contextlib.redirect_stdout(io.StringIO()):
-        for names, variant, npre, cap in items:
+        for idx, (names, variant, npre, cap) in enumerate(items):
+            if ndeep and idx >= len(items) - ndeep:
+                # the search for a replay: stop at the first failing schedule, and after ten minutes in any case
+                # (the broken discipline is then reported without a failing schedule)
+                if t_deep is None: t_deep = _time.time()
+                if ctx.stats.get('violating_schedules') or _time.time() - t_deep > 600:
+                    ctx.notes.append('search for a failing schedule stopped after %d of %d extra cases' % (idx - (len(items) - ndeep), ndeep))
+                    break
             try:
                 n, nbad = explore(ctx, w, names, variant, npre, cap, seen_fail)
             except sched.Hang as e:
